@@ -340,7 +340,13 @@ func vRunC15(c *vCase) {
 			c.Violate("c15:roundtrip-shape", "round trip changed the shape %v -> %v", p.shape.Sizes, q.shape)
 			return
 		}
-		if !reflect.DeepEqual(p.Data, q.Data) {
+		if vLen(p.Data) == 0 {
+			if q.Data != nil && vLen(q.Data) != 0 {
+				c.Violate("c15:roundtrip-payload", "round trip of an empty %T payload produced %T x%d", p.Data, q.Data, vLen(q.Data))
+				return
+			}
+			c.Cov("roundtrips_empty_payload", 1)
+		} else if !reflect.DeepEqual(p.Data, q.Data) {
 			c.Violate("c15:roundtrip-payload", "round trip changed the payload (%T x%d)", p.Data, vLen(p.Data))
 			return
 		}
@@ -403,7 +409,7 @@ func vBuildPacket(r *rand.Rand) (p *Packet) {
 		dims[i] = int16(vPick(r, 1, 2, 3, 4, 8))
 		nchan *= int(dims[i])
 	}
-	frames := vPick(r, 1, 2, 5, 20, 100)
+	frames := vPick(r, 1, 2, 5, 20, 100, 0) // also packets that announce a shape and carry no sample (simulated dropped data)
 	n := nchan * frames
 	var err error
 	switch r.Intn(3) {
@@ -435,7 +441,7 @@ func vBuildPacket(r *rand.Rand) (p *Packet) {
 		}
 		err = p.NewData(d, dims)
 	}
-	if err != nil || n == 0 {
+	if err != nil {
 		return nil
 	}
 	return p
